@@ -63,6 +63,14 @@ EXPLANATION = (
     '(elements attributed to the call by reaching definitions; `x[2]`, unpacked names, len()/== [] spellings). R5 also: while the narrowed range is stored, a `self.` call that can leave through '
     'a control-flow request (exception classes the source derives directly from BaseException: continue/break/subdir_done; who-may-raise closure over self-calls in the module) must stand under a '
     'try whose finally / catch-all handler stores the saved range back; a handler that restores but is not catch-all, or a callee that writes the table itself, ends Undecided. '
+    'Round 13: also read - a three-way core that answers `(x > y) - (x < y)` (the sign of comparing x with y, directly or through a private helper; mirrored spellings) as the key of x/y with its direction; '
+    'named constructors of Range (classmethod/staticmethod of Range or a module function whose body is one `return Range(..)`/`cls(..)` expression) replaced by the constructor expression with the '
+    'arguments bound by signature; public methods of Range other than intersect/always read through like private helpers (closed world: no subclass of Range in the module), so always() may be the '
+    'projection `self.m(inner)[k]` of a pair-returning method (`(a, b)[k]` folded when the dropped elements are pure); R5 reads `a, b = r.m(x)` through the pair summary of m (element expression bound to '
+    'receiver/argument) and treats `r.m(x)` as the always() question when Range.always is by definition `self.m(inner)[k]`. R4c also: a row of Range.always that answers False without the intersection '
+    '(a shortcut on the bounds) must hold only where a lower bound of one range and the upper bound of the other exclude each other (above, or equal with an exclusive side - decided on the worlds of the '
+    'pair\'s own atoms: None-ness, order, both inclusivity flags) or an operand is empty; a shortcut answering None is always allowed; one answering True ends Undecided; a verdict that is not one of '
+    'True/False/None after normalisation is an unread shape (Undecided), never a violation. '
     'Does NOT decide at consumers of version_compare_many whether the branch taken on the verdict is the accepting one (polarity of the caller\'s own logic), nor decisions taken on a comparison of '
     'the list lengths. '
     'NOT decided: (a) if-clause narrowing is applied whatever the condition does with the result of version_compare (`not ..`, `.. or true`): the narrowed range is then '
